@@ -121,14 +121,114 @@ def run(ck):
         if rows:
             ck.sample(dict(function=base, **rows[len(rows) // 2]))
     bn, bsites = bumper_rule(ck, prog)
+    dn, drows = direction_rule(ck, prog)
+    if dn < 6:
+        ck.fail_broken("direction rule: only %d (primitive, placement) instances decided (< 6)" % dn)
     cov = dict(explanation="(a) %d function x ordering instances: all %d weak orderings of the four byte endpoints of the two operands for each of the %d interval-testing functions; per "
                "instance the reachable returns under that ordering (path engine, Fourier-Motzkin pruning) are compared with 'intervals intersect'. (b) %d bumper loops in %d "
                "overlap-forbidding string functions: every store through the destination cursor is preceded, in the same iteration, by the comparison of the moving cursor with the "
-               "entry value of the other operand, whose equal edge leads to an ESOVRLP return." % (n, len(ords), len(ROWS), bsites, bn),
-               exhaustive=True, obligations=n + bsites, discharged=n + bsites - len({r["key"] for r in ck.reports}), orderings=len(ords), functions=per, frontend=info,
+               "entry value of the other operand, whose equal edge leads to an ESOVRLP return. (c) %d (move primitive, placement) instances: under 'dest below src, overlapping' only "
+               "forward copy loops are reachable, under 'dest above src, overlapping' only backward ones (loops classified by the sign of the cursor step)." % (n, len(ords), len(ROWS), bsites, bn, dn),
+               exhaustive=True, obligations=n + bsites, discharged=n + bsites - len({r["key"] for r in ck.reports}), orderings=len(ords), functions=per, move_direction=drows, frontend=info,
                summary="%d ordering instances, %d bumper loops" % (n, bsites))
     return ck.finish(cov, ["pointers are compared as integers within one arena (as the code does)", "object sizes unknown to the library (the dmax = destbos replacement is a C01 finding)",
-                           "exactness of the memmove family is not decided"])
+                           "exactness of the memmove family beyond the direction of the copy is not decided"])
+
+
+class _Stores(Plugin):
+    """records the blocks in which a store through a pointer derived from the dest parameter is executed"""
+    inline_depth = 0
+
+    def __init__(s, root):
+        s.root = root
+
+    def init(s, eng):
+        s.blocks = set()
+        return ()
+
+    def on_event(s, pl, ev, eng, st):
+        if ev[0] == "store" and ev[1][0] == "p" and ev[1][1] == s.root and ev[4].depth == 0:
+            s.blocks.add(ev[3]["_bb"])
+        return pl
+
+
+def direction_rule(ck, prog, report=None, select=None):
+    """(c) memmove direction: in the move primitives (forward and backward copy loops behind one direction test), under the assumption
+    'dest below src and the regions overlap' only forward loops may be reachable, under 'dest above src and overlapping' only backward ones."""
+    report = report or ck.report
+    from .. import capcheck
+    n = 0
+    out = {}
+    for fn in prog.allfuncs:
+        if not (select(fn) if select else (fn.mod["tu"].endswith("mem_primitives_lib.c") and fn.name.startswith("mem_prim_move"))):
+            continue
+        P = fn.pnames
+        if not all(k in P for k in ("dest", "src", "len")):
+            continue
+        A = capcheck.Analysis(fn)
+        for b_ in fn.j["blocks"]:
+            for i_ in b_["insts"]:
+                if "id" in i_ and i_["ty"].endswith("*"):
+                    A.ptr({"k": "v", "id": i_["id"]})
+        droot = P["dest"]["id"]
+        unit = {"i8*": 1, "i16*": 2, "i32*": 4, "i64*": 8}.get(P["dest"]["ty"], 1)
+        # direction of every loop that stores through the dest chain: sign of the cursor's step along the back edge
+        def chain_root(r):
+            seen = set()
+            while r in A.offphi and r not in seen:
+                seen.add(r)
+                r = A.offphi[r][0]
+            return r
+        dirs = {}
+        for h, L in fn.loops.items():
+            hphis = {i["id"] for i in fn.blocks[h]["insts"] if i["op"] == "phi" and i["ty"].endswith("*") and i["id"] in A.offphi and chain_root(i["id"]) == droot}
+            signs = set()
+            nst = 0
+            for b in L["blocks"]:
+                for i in fn.blocks[b]["insts"]:
+                    if i["op"] != "store":
+                        continue
+                    r, off = A.ptr(i["ops"][1])
+                    if r is None or chain_root(r) != droot:
+                        continue
+                    nst += 1
+                    # position of the store relative to the cursor value at the loop head: at/after it = forward, before it = backward
+                    if r in hphis and off is not None and off.is_const():
+                        signs.add("forward" if off.c >= 0 else "backward")
+                    elif r == droot and off is not None and any(off == Lin.atom("off(%s)" % ph) for ph in hphis):
+                        signs.add("forward")
+            if not nst:
+                continue
+            sign = signs.pop() if len(signs) == 1 else None
+            for b in L["blocks"]:
+                dirs[b] = sign
+        loops = {b: d for b, d in dirs.items()}
+        if not loops or None in loops.values() or len(set(loops.values())) < 2:
+            ck.fail_broken("%s: could not classify the copy loops as forward/backward (%s)" % (fn.name, sorted(set(map(str, loops.values())))))
+            continue
+        D, S = Lin.atom("&" + P["dest"]["id"]), Lin.atom("&" + P["src"]["id"])
+        nb = Lin.atom(P["len"]["id"]).scale(unit)
+        rows = {}
+        for case, assume, wrong in (("dest below src, overlapping", [(("cmp", "ult", D, S), True), (("cmp", "ult", S, D + nb), True)], "backward"),
+                                    ("dest above src, overlapping", [(("cmp", "ugt", D, S), True), (("cmp", "ult", D, S + nb), True)], "forward")):
+            pg = _Stores(droot)
+            eng = Engine(prog, fn, pg, budget=40000)
+            eng.nonneg |= {"&" + P["dest"]["id"], "&" + P["src"]["id"]}
+            eng.init_assumptions = assume + [(("cmp", "uge", D, Lin.const(1)), True), (("cmp", "uge", S, Lin.const(1)), True), (("cmp", "uge", Lin.atom(P["len"]["id"]), Lin.const(1)), True)]
+            try:
+                eng.run()
+            except BudgetExceeded as e:
+                ck.fail_broken(str(e)); continue
+            reached = sorted({loops[b] for b in pg.blocks if b in loops})
+            rows[case] = reached
+            n += 1
+            if not reached:
+                ck.fail_broken("%s: no copy loop reachable under '%s'" % (fn.name, case))
+            if wrong in reached:
+                report("C07:move-direction:%s:%s" % (fn.name, case.replace(" ", "-").replace(",", "")), "O-move-direction", "%s:%s" % (fn.file, fn.line),
+                       "%s: with %s a %s copy loop is reachable: it reads source bytes it has already overwritten (silently corrupted result of memmove_s)" % (fn.name, case, wrong))
+        out[fn.name] = rows
+    return n, out
 
 
 BUMPER_FUNCS = ("_strcpy_s_chk", "_strcat_s_chk", "_strncpy_s_chk", "_strncat_s_chk", "_stpcpy_s_chk", "_stpncpy_s_chk", "_strcpyfld_s_chk", "_strcpyfldin_s_chk",
